@@ -117,7 +117,7 @@ func (r *Run) Sample(s interface{}) {
 func (r *Run) Add(name string, n int64) {
 	r.mu.Lock()
 	defer r.mu.Unlock()
-	cur, _ := r.Cov[name].(int64)
+	cur, _ := toInt(r.Cov[name])
 	r.Cov[name] = cur + n
 }
 
@@ -130,7 +130,7 @@ func (r *Run) Set(name string, v interface{}) {
 func (r *Run) Get(name string) int64 {
 	r.mu.Lock()
 	defer r.mu.Unlock()
-	cur, _ := r.Cov[name].(int64)
+	cur, _ := toInt(r.Cov[name])
 	return cur
 }
 
